@@ -187,7 +187,7 @@ def main():
         "setup_cmd": "./vcheck setup",
         "hooks": {
             "guard": "verif-overlay (go build -overlay; no source file of /repo carries instrumentation)",
-            "enable": "No file in /repo is modified. Instrumentation is injected at build time with `go test -overlay` generated by tools/mkoverlay from /repo's current working tree: range-over-map statements iterate through the vmap shim (deterministic, permutable order); `sync` and `go` statements of internal/engine and internal/xpkg/cache.go go through the vsync shim; the shims are added as virtual packages internal/verifshim/{vmap,vsync}. Without the overlay the repository builds and tests exactly as before.",
+            "enable": "No file in /repo is modified. Instrumentation is injected at build time with `go test -overlay` generated by tools/mkoverlay from /repo's current working tree: range-over-map statements iterate through the vmap shim (deterministic, permutable order); `sync` and `go` statements of internal/engine and internal/xpkg/cache.go go through the vsync shim; the shims are added as virtual packages internal/verifshim/{vmap,vsync}; add-only files under /verif/export (mirroring the repo layout, never replacing a repository file) give the checks constructors for exported types whose fields are unexported (the RBAC roles controller's event handlers, built exactly as its Setup builds them). Without the overlay the repository builds and tests exactly as before.",
             "baseline_off_cmd": "for m in $(cat /w/out/gomods.txt); do MF=$(cd /repo/$m && . /w/out/goenv.sh && gomodflag); (cd /repo/$m && go test $MF -json -vet=off -count=1 -timeout 25m ./...); done",
             "source_commits": [],
             "add_only": True,
